@@ -1,0 +1,35 @@
+//go:build verif
+
+// Verification contracts for package types (comment-only; compiled only with -tags verif).
+// Read by /verif/cmd/gvc; see /verif/DESIGN.md for the contract language.
+
+package types
+
+//@ extern errors.Join
+//@   params errs
+//@   noeffect
+//@   ensures nil_iff_all_nil: (result != nil) == exists(i, 0, len(errs), errs[i] != nil)
+
+// every intent has a result record; recorded errors are real errors
+//@ pred vrOK(v) = v != nil && allstr(k, present(v, k) ==> v[k] != nil && forall(i, 0, len(v[k].errors), v[k].errors[i] != nil))
+//@ pred anyErrors(v) = exstr(k, present(v, k) && len(v[k].errors) > 0)
+
+// C03: a validation error of any intent is visible to the caller
+//@ func (ValidationResults).HasErrors
+//@   props C03
+//@   requires vrOK(v)
+//@   modifies nothing
+//@   ensures spec: result == anyErrors(v)
+//@   loop 0 invariant $map == v
+//@   loop 0 invariant allstr(k, $visited[k] ==> present(v, k) && len(v[k].errors) == 0)
+
+// C03: a failing (replace) intent is surfaced as an error, never as success
+//@ func (ValidationResults).JoinErrors
+//@   props C03
+//@   requires vrOK(v)
+//@   modifies nothing
+//@   ensures nonnil_if_errors: anyErrors(v) ==> result != nil
+//@   ensures nil_if_none: !anyErrors(v) ==> result == nil
+//@   loop 0 invariant $map == v
+//@   loop 0 invariant allstr(k, $visited[k] ==> present(v, k))
+//@   loop 0 invariant (result != nil) == exstr(k, $visited[k] && len(v[k].errors) > 0)
